@@ -288,7 +288,8 @@ def e2e_cases(chk):
     cases = []
     for i, s in enumerate(shapes):
         base = {"w": s["w"], "h": s["h"], "n": s["n"], "bd": s["bd"], "content": s["content"], "seed": chk.seed * 100 + i, "decode": 0,
-                "recon": 1, "watchdog": 600, "cfg.enc_mode": s["mode"], "cfg.logical_processors": s["lp"]}
+                "recon": 1, "watchdog": 600, "cfg.enc_mode": s["mode"], "cfg.logical_processors": s["lp"],
+                "cfg.enable_tpl_la": 0}      # TPL off: with it the encoder is not run-to-run deterministic at lp >= 2 (finding C04-tpl-nondeterministic-lp2plus)
         variants = [dict(base, stride_extra=r.range(1, 64), padfill=-1, padseed=r.range(1, 1 << 20)),
                     dict(base, stride_extra=64, padfill=r.choice([255, 1, 128]), scribble=1, guard=1),
                     dict(base, scribble=1),
